@@ -1,8 +1,8 @@
 //! C11, feature profile without `orchard`: unified addresses built from raw receivers are taken
 //! through UnifiedAddress::try_from / to_zcash_address / Address::decode by a build that cannot
-//! interpret the Orchard receiver. The profile is reported in the vocabulary of the main model:
-//! the uninterpreted Orchard receiver (an unknown item with typecode 3) is shown in the Orchard
-//! slot, with the identity as its decoder oracle (the build does not decode it).
+//! interpret the Orchard receiver. The address is reported as this build holds it (no Orchard
+//! slot; raw unknown items, among them the kept Orchard item under typecode 3); the Coq side has
+//! its own model of this profile (`ua_loop_ns`).
 use vcommon::*;
 use zcash_address::unified::{self, Container, Encoding};
 use zcash_keys::address::{Address, UnifiedAddress};
@@ -75,23 +75,15 @@ fn p_taddr(a: &TransparentAddress) -> String {
         TransparentAddress::ScriptHash(h) => format!("(SH {})", hx(h)),
     }
 }
-/// the address in the main model's vocabulary: a kept item with typecode 3 is the Orchard receiver
+/// the address as this build holds it: no Orchard slot, the unknown items raw and in order
 fn p_uaddr(ua: &UnifiedAddress) -> String {
     let s = ua.sapling().map(|a| a.to_bytes().to_vec());
     let t = match ua.transparent() {
         None => "None".to_string(),
         Some(a) => format!("(Some {})", p_taddr(a)),
     };
-    let mut o = None;
-    let mut unk: Vec<(u32, B)> = vec![];
-    for (c, d) in ua.unknown() {
-        if *c == 3 && o.is_none() {
-            o = Some(d.clone());
-        } else {
-            unk.push((*c, d.clone()));
-        }
-    }
-    format!("(mkUaddr {} {} {} {})", sx(&o), sx(&s), t, p_items(&unk))
+    let unk: Vec<(u32, B)> = ua.unknown().to_vec();
+    format!("(mkUaddr None {} {} {})", sx(&s), t, p_items(&unk))
 }
 
 fn ua_case(net: Net, items: &[(u32, B)]) -> bool {
@@ -101,9 +93,7 @@ fn ua_case(net: Net, items: &[(u32, B)]) -> bool {
     let sorted: Vec<(u32, B)> = cont.items_as_parsed().iter().map(item_of).collect();
     let mut ents = vec![];
     for (t, d) in &sorted {
-        if *t == 3 {
-            ents.push(format!("oe 24 \"{}\" 0 (osome \"{}\")", hex(d), hex(d)));
-        } else if *t == 2 {
+        if *t == 2 {
             let d2 = d.clone();
             let r = catch(move || arr::<43>(&d2).and_then(|a| sapling::PaymentAddress::from_bytes(&a)).map(|a| a.to_bytes().to_vec()));
             let v = match r {
@@ -134,13 +124,29 @@ fn ua_case(net: Net, items: &[(u32, B)]) -> bool {
             }
         }
     };
-    case(format!("CExtra (XUa [{}] {} {})", ents.join("; "), p_items(&sorted), o));
+    case(format!("CExtra (XUaNs [{}] {} {})", ents.join("; "), p_items(&sorted), o));
     // the string API: Address::decode / encode are the identity on the string
     if let Some(Ok(ua)) = res {
         let s = cont.encode(&nt);
+        // has_orchard / receiver_types report per profile: no Orchard receiver, the kept item as
+        // Unknown(3) among the unknown typecodes, after sapling and the transparent kind
+        let want: Vec<u32> = {
+            let mut v = vec![];
+            for t in [2u32, 1, 0] {
+                if sorted.iter().any(|(c, _)| *c == t) {
+                    v.push(t);
+                }
+            }
+            v.extend(sorted.iter().filter(|(c, _)| *c >= 3).map(|(c, _)| *c));
+            v
+        };
         let good = catch(|| {
             let via = Address::decode(&net, &s);
-            matches!(&via, Some(Address::Unified(u)) if *u == ua) && via.map(|a| a.encode(&net) == s).unwrap_or(false)
+            let types: Vec<u32> = ua.receiver_types().into_iter().map(u32::from).collect();
+            matches!(&via, Some(Address::Unified(u)) if *u == ua)
+                && via.map(|a| a.encode(&net) == s).unwrap_or(false)
+                && !ua.has_orchard()
+                && types == want
         })
         .unwrap_or(false);
         case(format!("CCrypto 11 {}", boolc(good)));
